@@ -304,6 +304,17 @@ def _eval_inner(case):
             if J2.shape != keep.shape or not np.array_equal(J2, keep):
                 ck.msgs.append("%s: editing a returned matrix in place changes what later calls return (shared result object)" % name)
         _held(ck, kind, [(name, getattr(a, name)(b)) for name, _, _, _ in BINARY])
+        # the documented parameter name works as a keyword and gives the same matrix
+        for name, _, _, _ in BINARY:
+            Jp = np.asarray(getattr(a, name)(b), dtype=float)
+            try:
+                Jk = np.asarray(getattr(a, name)(other=b), dtype=float)
+            except TypeError as ex:
+                ck.msgs.append("%s(other=...) raised TypeError: %s" % (name, ex))
+                continue
+            ck.nops += 1
+            if Jk.shape != Jp.shape or not np.array_equal(Jk, Jp):
+                ck.msgs.append("%s(other=...) differs from the positional call" % name)
         return ck.msgs, ck.ratio, ck.nontriv, ck.nops
     if t == "point":
         pk = I.POINT_OF[kind]
@@ -350,6 +361,16 @@ def _eval_inner(case):
                 fd = _fd_ambient(lambda x: (a + x).to_array(), pk, list(case["p"]), k, pk)
                 ck.vec("jacobian_self_oplus_point_wrt_point, column %d" % k, J2[:, k], fd)
         _held(ck, kind, [(name, getattr(a, name)(p)) for name in ("jacobian_self_oplus_point_wrt_self", "jacobian_self_oplus_point_wrt_point")])
+        for name in ("jacobian_self_oplus_point_wrt_self", "jacobian_self_oplus_point_wrt_point"):
+            Jp = np.asarray(getattr(a, name)(p), dtype=float)
+            try:
+                Jk = np.asarray(getattr(a, name)(point=p), dtype=float)
+            except TypeError as ex:
+                ck.msgs.append("%s(point=...) raised TypeError: %s" % (name, ex))
+                continue
+            ck.nops += 1
+            if Jk.shape != Jp.shape or not np.array_equal(Jk, Jp):
+                ck.msgs.append("%s(point=...) differs from the positional call" % name)
         return ck.msgs, ck.ratio, ck.nontriv, ck.nops
     # unary
     ck = _Ck(sc)
